@@ -251,9 +251,7 @@ func Main(e Engine) {
 		dump     = flag.Bool("dump", false, "print the generated plan of run -from as a replay file and exit")
 	)
 	flag.Parse()
-	if os.Getenv("VERIF_LOGS") == "" {
-		QuietLogs()
-	}
+	QuietLogs()
 	switch {
 	case *comps:
 		real, stub := e.Components()
